@@ -105,7 +105,7 @@ func TestVerif_C14(t *testing.T) {
 		disableDebugGoroutines.Store(true)
 		defer disableDebugGoroutines.Store(prevDbg)
 		c.Rule("a case = SETTINGS configuration (server/client max frame size, stream and connection windows, header table sizes, write scheduler, request before/after the SETTINGS exchange) x request shape (method, path, header set, body length, declared/undeclared length, body Read chunking, trailers) x response shape (status, 103, header set, body length, declared length, Write chunking, Flush, declared / TrailerPrefix trailers, handler order); parts: 'cover' = covering array of strength 2 (thorough: 3) over all 27 dimensions; 'request-product', 'response-product', 'header-product' = full products of the dimensions that interact in one direction; 'header-block-boundary' = a request / response header block whose encoded length is swept byte by byte from 160 below to 8 above 16384 (thorough: and 32768, and with 16 MB frames allowed), the observed block lengths at distance <= 2 of the boundary are recorded as outcomes; 'short-read' = base scenarios x every placement of <= 1 (thorough: <= 2) short reads (1 or 7 bytes) at every read index of either direction. non-trivial = the exchange completed and all request and response observations were compared; distinct = distinct frame-type traces on the wire (both directions), distinct header block lengths, distinct truncating short-read placements")
-		c.Assume("excluded from the domain: request trailers without a request body stream; handlers that answer with a status > 299 before reading the request body (the Transport then stops sending the body by documented heuristic); 204/304 with content; bodies that would need more than 4000 window refills (1-byte windows with large bodies: cost); Expect: 100-continue, CONNECT, hop-by-hop fields, gzip (DisableCompression), Transfer-Encoding, Host/Priority/Trailer/Te fields set by the application; server push; more than one request per connection (see C08-C11, C15, C17 for concurrency)")
+		c.Assume("excluded from the domain: request trailers without a request body stream; handlers that answer with a status > 299 before reading the request body (the Transport then stops sending the body by documented heuristic); 204/304 with content; bodies that would need more than 4000 window refills (1-byte windows with large bodies: cost); Expect: 100-continue, CONNECT, hop-by-hop fields, gzip (DisableCompression), Transfer-Encoding, Host/Priority/Trailer/Te fields set by the application; server push; concurrent requests on one connection (see C08-C11, C15, C17); the deprecated RFC 7540 scheduler in the two situations where the server resets the stream mid-handler (C12 finding crashes the server there)")
 		c.Assume("allow-list of fields the libraries add: request User-Agent default and Content-Length (must equal the body length); response Date (any value) and Content-Length (must equal the number of bytes the handler wrote); Content-Type sniffing is avoided by always setting Content-Type; HEAD responses carry neither body nor trailers; values of one field name are compared in order, different names as a multiset; names are compared after net/http canonicalisation")
 		c.Assume("goroutine schedules are those the Go scheduler produces with GOMAXPROCS=1 inside the bubble plus the variations induced by Early and by short reads; no preemption points inside library calls are enumerated")
 
@@ -177,10 +177,7 @@ func TestVerif_C14(t *testing.T) {
 
 		hd := c14Base()
 		hd.ReqBody, hd.ReqDecl, hd.ResBody, hd.Repeat = 10, false, 10, 2
-		hdrVary := []string{"c_tbl", "s_tbl", "req_trl", "res_trl", "req_hdr", "res_hdr"}
-		if wide {
-			hdrVary = append([]string{"early"}, hdrVary...)
-		}
+		hdrVary := []string{"early", "c_tbl", "s_tbl", "req_trl", "res_trl", "req_hdr", "res_hdr"}
 		product("header-product", hd, hdrVary)
 
 		// ---- header block length swept across the frame-size boundaries
